@@ -87,7 +87,10 @@ def units(tier):
 
 # ------------------------------------------------------------------------------ shapes
 
-def build_pair(kindname, spec):
+HOSTS = ["plain", "prefixed", "nullstripped-after-header"]
+
+
+def build_pair(kindname, spec, host="plain"):
     """-> (lazy construct, eager construct, value for building a canonical input, names)"""
     import construct as C
     K = kinds()
@@ -107,8 +110,14 @@ def build_pair(kindname, spec):
         vals = [[vs[i % 2] for i in range(n)], [vs[(i + 1) % 2] for i in range(n)]]
     else:
         raise ValueError(kindname)
-    outer = lambda inner: C.Struct("n" / C.Byte, "lz" / inner, "t" / C.Byte, "pos" / C.Tell)
-    values = [dict(n=2, lz=v, t=0x77) for v in vals]
+    if host == "plain":
+        outer = lambda inner: C.Struct("n" / C.Byte, "lz" / inner, "t" / C.Byte, "pos" / C.Tell)
+    elif host == "prefixed":
+        # the lazy part lives in a sub-stream that starts at a non-zero offset of the real stream
+        outer = lambda inner: C.Struct("n" / C.Byte, "pad" / C.Bytes(3), "lz" / C.Prefixed(C.Byte, inner), "t" / C.Byte, "pos" / C.Tell)
+    else:
+        outer = lambda inner: C.Struct("n" / C.Byte, "pad" / C.Bytes(2), "lz" / C.FixedSized(24, C.NullStripped(inner, pad=b"\xfe")), "t" / C.Byte, "pos" / C.Tell)
+    values = [dict(n=2, pad=b"\x01\x02\x03"[:3 if host == "prefixed" else 2], lz=v, t=0x77) for v in vals]
     return outer(lazy_inner), outer(eager_inner), values, names
 
 
@@ -357,21 +366,25 @@ def run_unit(unit, tier):
     k = unit["kind"]
     if k == "lazystruct":
         for spec in unit["lists"]:
-            ol, oe, values, names = build_pair("lazystruct", spec)
-            sig = "LazyStruct(%s)" % ",".join(spec)
-            for data in inputs_for(oe, values, tier):
-                for v in explore(ol, oe, names, data, struct_events(names), len(spec) + 2, sig, {"kind": "lazystruct", "spec": spec}, r):
-                    r.violation(sigshort(v["sig"]), v["case"], v["detail"])
-            r.sample({"shape": sig}, cap=2)
+            for host in HOSTS:
+                if host != "plain" and len(spec) > ((2 if host == "prefixed" else 1) if tier == "quick" else 3):
+                    continue
+                ol, oe, values, names = build_pair("lazystruct", spec, host)
+                sig = "LazyStruct(%s)" % ",".join(spec)
+                for data in inputs_for(oe, values, tier):
+                    for v in explore(ol, oe, names, data, struct_events(names), len(spec) + 2, sig, {"kind": "lazystruct", "spec": spec, "host": host}, r):
+                        r.violation(sigshort(v["sig"]), v["case"], v["detail"])
+                r.sample({"shape": sig, "host": host}, cap=2)
     elif k == "lazyarray":
         for n in range(1, INFO["bounds"][tier]["array_n"] + 1):
             spec = {"n": n, "elem": unit["elem"]}
-            ol, oe, values, names = build_pair("lazyarray", spec)
-            sig = "LazyArray(%d,%s)" % (n, unit["elem"])
-            for data in inputs_for(oe, values, tier):
-                for v in explore(ol, oe, None, data, array_events(n), min(n + 2, 4), sig, {"kind": "lazyarray", "spec": spec}, r):
-                    r.violation(sigshort(v["sig"]), v["case"], v["detail"])
-            r.sample({"shape": sig}, cap=2)
+            for host in HOSTS:
+                ol, oe, values, names = build_pair("lazyarray", spec, host)
+                sig = "LazyArray(%d,%s)" % (n, unit["elem"])
+                for data in inputs_for(oe, values, tier):
+                    for v in explore(ol, oe, None, data, array_events(n), min(n + 2, 4), sig, {"kind": "lazyarray", "spec": spec, "host": host}, r):
+                        r.violation(sigshort(v["sig"]), v["case"], v["detail"])
+                r.sample({"shape": sig, "host": host}, cap=2)
     elif k == "lazy":
         for position in ("first", "middle", "last"):
             ol, oe, values = lazy_pair(unit["elem"], position)
@@ -568,10 +581,10 @@ def replay(case):
         vs = run_interleaved(case["shape"], "quick", None)
         return [v for v in vs if v["case"]["data"] == case["data"] and v["case"]["history"] == case["history"]] or vs[:1]
     if k == "lazystruct":
-        ol, oe, values, names = build_pair("lazystruct", case["spec"])
+        ol, oe, values, names = build_pair("lazystruct", case["spec"], case.get("host", "plain"))
         vs = explore(ol, oe, names, case["data"], struct_events(names), len(case["spec"]) + 2, "LazyStruct(%s)" % ",".join(case["spec"]), case, None)
     elif k == "lazyarray":
-        ol, oe, values, names = build_pair("lazyarray", case["spec"])
+        ol, oe, values, names = build_pair("lazyarray", case["spec"], case.get("host", "plain"))
         n = case["spec"]["n"]
         vs = explore(ol, oe, None, case["data"], array_events(n), min(n + 2, 4), "LazyArray(%d,%s)" % (n, case["spec"]["elem"]), case, None)
     elif k == "lazy":
